@@ -5,14 +5,15 @@
 set -u
 wt="$1"; demo="${2:-engine/tests/seed_demo.rs}"; crate="${3:-wirefilter-engine}"
 cd "$wt" || exit 3
+tmp=$(mktemp -d /var/tmp/verify_seed.XXXXXX)   # per-run scratch: several worktrees may be verified side by side
 export CARGO_NET_OFFLINE=true RUST_BACKTRACE=0
-git diff -- engine/src ffi/src > /tmp/verify_seed.cur
-if ! cmp -s /tmp/verify_seed.cur patch.diff; then echo "NOTE: worktree diff differs from patch.diff; resetting to patch.diff"; git checkout -- engine/src ffi/src; git apply patch.diff || exit 3; fi
-mv "$demo" /tmp/verify_seed_demo.rs
+git diff -- engine/src ffi/src > $tmp/cur
+if ! cmp -s $tmp/cur patch.diff; then echo "NOTE: worktree diff differs from patch.diff; resetting to patch.diff"; git checkout -- engine/src ffi/src; git apply patch.diff || exit 3; fi
+mv "$demo" $tmp/seed_demo.rs
 suite=$(cargo test --workspace --offline --no-fail-fast 2>&1 | grep -E "^test result|FAILED|panicked" )
 echo "$suite" | grep -q "FAILED\|failed;" && echo "$suite" | grep -v " 0 failed" | head -5
 nfail=$(echo "$suite" | grep -c "^test result: FAILED")
-mv /tmp/verify_seed_demo.rs "$demo"
+mv $tmp/seed_demo.rs "$demo"
 echo "existing suite with change: failing result lines = $nfail"
 with=$(cargo test -p "$crate" --test seed_demo --offline 2>&1 | grep -E "^test result" | tail -1)
 echo "demo WITH change:    $with"
@@ -20,3 +21,4 @@ git apply -R patch.diff
 without=$(cargo test -p "$crate" --test seed_demo --offline 2>&1 | grep -E "^test result" | tail -1)
 echo "demo WITHOUT change: $without"
 git apply patch.diff
+rm -rf "$tmp"
